@@ -7,7 +7,7 @@
    oracle.  "fresh" blocks are blocks that did not exist before the call: storage that nothing
    else can reach.  The metadata / slice containers are covered by the sanitizer run only.
    Statements only; proofs in MemFacts.v. *)
-From Sbdf Require Import Imp ImpCall Gen.Prog ImpBase ImpFactsCells ImpFactsDestroy.
+From Sbdf Require Import Imp ImpCall Gen.Prog ImpBase ImpFactsCells ImpFactsDestroy ImpFactsRelease.
 From Coq Require Import List.
 From Sbdf Require Import Mem MemFacts.
 
@@ -150,3 +150,36 @@ Proof.
   split; [reflexivity|]. split; [reflexivity|]. split; [discriminate|]. split; [discriminate|]. split; [reflexivity|].
   split; [repeat constructor; eexists; (split; [reflexivity|cbn; lia])|]. split; [cbn; unfold int_max; lia|reflexivity].
 Qed.
+
+(* ---- containers that only refer to what they hold (slices built by the caller, owned = 0), from the source
+   (src/columnslice.c, src/tableslice.c): sbdf_cs_destroy releases the property names, the two pointer
+   arrays and the struct; sbdf_ts_destroy releases the columns array and the struct - and that is all:
+   every other block of the cell heap (the value arrays, the column slices, the table metadata the
+   container referred to) is exactly as before, still live, still the caller's to release. *)
+Theorem C12_source_cs_destroy_not_owning : forall k sx m h cb values names props nb ncells used pb pcells,
+  cs_block h cb values (zlen used) names props 0 -> as_ptr names = VCell nb 0 -> nth_error h nb = Some (Some ncells) ->
+  ImpFactsRelease.elem_ptrs m used -> (exists slack, ncells = used ++ slack) -> zlen used < int_max ->
+  as_ptr props = VCell pb 0 -> nth_error h pb = Some (Some pcells) -> cb <> nb -> cb <> pb -> nb <> pb ->
+  exists f0, forall f, (f0 <= f)%nat -> exists fin,
+    callC prog_env f prog_sbdf_cs_destroy [VCell cb 0] m k sx h = ONormal fin /\ inb fin = m /\
+    Imp.lookup cells_var (vars fin) = Some (VHeap (kill cb (kill pb (kill nb h)))).
+Proof. exact cs_destroy_source. Qed.
+Print Assumptions C12_source_cs_destroy_not_owning.
+
+Theorem C12_source_cs_destroy_fresh : forall k sx m h cb values, cs_block h cb values 0 (VInt 0) (VInt 0) 0 ->
+  exists f0, forall f, (f0 <= f)%nat -> exists fin,
+    callC prog_env f prog_sbdf_cs_destroy [VCell cb 0] m k sx h = ONormal fin /\ inb fin = m /\ Imp.lookup cells_var (vars fin) = Some (VHeap (kill cb h)).
+Proof. exact cs_destroy_empty_source. Qed.
+Print Assumptions C12_source_cs_destroy_fresh.
+
+Theorem C12_source_ts_destroy_not_owning : forall k sx m h tb meta n cols colb ccells, ts_block h tb meta n cols 0 ->
+  as_ptr cols = VCell colb 0 -> nth_error h colb = Some (Some ccells) -> tb <> colb ->
+  exists f0, forall f, (f0 <= f)%nat -> exists fin,
+    callC prog_env f prog_sbdf_ts_destroy [VCell tb 0] m k sx h = ONormal fin /\ inb fin = m /\ Imp.lookup cells_var (vars fin) = Some (VHeap (kill tb (kill colb h))).
+Proof. exact ts_destroy_source. Qed.
+Print Assumptions C12_source_ts_destroy_not_owning.
+
+Theorem C12_source_release_leaves_others : forall b1 b2 b3 (h : heap) c, c <> b1 -> c <> b2 -> c <> b3 ->
+  nth_error (kill b1 (kill b2 (kill b3 h))) c = nth_error h c.
+Proof. exact release_leaves_others. Qed.
+Print Assumptions C12_source_release_leaves_others.
